@@ -869,10 +869,12 @@ int websocket_upgrade_on_header_value(http_parser *p, const char *at, size_t len
 	switch (s->current_header_field) {
 	case HEADER_SEC_WEBSOCKET_KEY:
 		ret = save_websocket_key(s->sec_web_socket_key, at, length);
+		s->key_received = (ret == 0);
 		break;
 
 	case HEADER_SEC_WEBSOCKET_VERSION:
 		ret = check_websocket_version(at, length);
+		s->version_received = (ret == 0);
 		break;
 
 	case HEADER_SEC_WEBSOCKET_PROTOCOL:
@@ -903,6 +905,11 @@ int websocket_upgrade_on_headers_complete(http_parser *parser)
 
 	struct http_connection *connection = container_of(parser, struct http_connection, parser);
 	if (!parser->upgrade) {
+		return -1;
+	}
+	const struct websocket *s = connection->parser.data;
+	if (!s->key_received || !s->version_received) {
+		/* RFC 6455 4.2.1: both header fields are required in the opening handshake. */
 		return -1;
 	}
 	int ret = send_upgrade_response(connection);
